@@ -518,9 +518,12 @@ def random_plan(seed, length=60):
             plan.append(("tick", r.choice([1, 1, 2, 5, 10, 29, 30]) if r.random() < 0.7 else r.choice(far)))
         elif x < 0.25 + p_cmd:
             plan.append(("cmd", r.choice(["imap", "pop3"]), r.choice(addrs), r.randrange(1, NCMDS + 1)))
+        elif x < 0.27 + p_cmd:
+            plan.append(("setpw", r.choice(users), r.choice(["new", "disable", "enable", "remove"])))
         else:
             y = r.random()
-            cred = "good" if y < p_good else ("empty" if y < p_good + 0.08 else "wrong")
+            cred = "good" if y < p_good else ("empty" if y < p_good + 0.08 else
+                                              ("old" if y < p_good + 0.12 else "wrong"))
             plan.append(("attempt", r.choice(["imap", "pop3"]), r.choice(users), r.choice(addrs), cred))
     return plan
 
